@@ -184,6 +184,9 @@ func (mgr *Manager) VerifRecompute() (map[string][]uint, map[string]string) {
 					errs[n] = "parse: " + err.Error()
 					continue
 				}
+				if len(q.Conditions) == 0 {
+					errs[n] = "impossible"
+				}
 				res, _, _, err := index.SearchStreams(context.Background(), mgr.indexes, nil, q.ReferenceTime, q.Conditions, nil, []query.Sorting{{Key: query.SortingKeyID, Dir: query.SortingDirAscending}}, 0, 0, fresh, convs, false)
 				if err != nil {
 					errs[n] = "search: " + err.Error()
